@@ -6,7 +6,7 @@ from ..common import Names, rat, run_impl, canon_ballots, condensed_map
 from .c04 import ref_scores
 
 PROP = "C12"
-LEAN_MODULE = "VK.Props.C12Scores"
+LEAN_MODULE = "VK.Check.C12"
 THEOREMS = [
     "VK.C12_removed_absent",
     "VK.C12_order",
@@ -24,6 +24,7 @@ THEOREMS = [
     "VK.C12_expand_keeps_positional_scores",
     "VK.expand_pairwise",
     "VK.C12_expand_keeps_pairwise",
+    "VK.kernel_expand_share",
 ]
 RULE = ("cases = utility in {remove_cand on profile / ballot tuple / single ballot x condense x "
         "leave_zero_weight_ballots, add_missing_cands, expand_tied_ballot, resolve_profile_ties, "
